@@ -42,6 +42,8 @@ Definition polls_of (ops : list sched_op) (es : list sevent) : list (list bool) 
 
 Definition at_call (c : nat) (o : sop) : sched_op := {| so_pos := PCall c; so_op := o |}.
 
+Ltac in_list := simpl; repeat (first [left; reflexivity | right]).
+
 (* the machine view before call c / the told activity: read off the events *)
 Fixpoint tx_end_views (es : list sevent) : list (view * bool) :=
   match es with
@@ -67,10 +69,7 @@ Lemma when_spurious_refuted_lemma :
 Proof.
   exists (flat_schema 2), [call KAdd [0]; call KSet [1]], 1, [0; 1].
   cbv zeta.
-  assert (E : hist_events (flat_schema 2) [] [] [call KAdd [0]; call KSet [1]]
-                [at_call 1 (OWhen [0; 1] None)] = w1_events) by reflexivity.
-  rewrite E. clear E.
-  remember w1_events as es eqn:Hes. vm_compute in Hes. subst es.
+  remember (hist_events _ _ _ _ _) as es eqn:Hes. vm_compute in Hes. subst es.
   split; [|split].
   - intros k v o H. simpl in H.
     repeat (destruct H as [H | H]; [try discriminate; inversion H; subst; reflexivity |]).
@@ -105,17 +104,17 @@ Lemma whentime_setschema_refuted_lemma :
     let es := hist_events sc [] [] calls ops in
     nth 1 ops (at_call 0 ONop) = at_call 1 (OWhenTicks 0 1 None) /\
     (* the tick the subscription waits for is reached at a processed transition end *)
-    (exists v, In (v, true) (tx_end_views es) /\ (2 <=? tick_of (v_clock v) 0)%N = true) /\
-    (exists k v, In (EOp k v (OWhenTicks 0 1 None)) es /\ tick_of (v_clock v) 0 = 1%N) /\
+    existsb (fun vp : view * bool => snd vp && (2 <=? tick_of (v_clock (fst vp)) 0)%N)
+            (tx_end_views es) = true /\
+    existsb (fun e => match e with
+                      | EOp _ v (OWhenTicks 0 1 None) => N.eqb (tick_of (v_clock v) 0) 1
+                      | _ => false end) es = true /\
     last (polls_of ops es) [] = [false; false].
 Proof.
   exists (flat_schema 1), [call KAdd [0]; call KRemove [0]; call KAdd [0]], w3_ops.
   cbv zeta. split; [reflexivity|].
   remember (hist_events _ _ _ _ _) as es eqn:Hes. vm_compute in Hes. subst es.
-  split; [|split].
-  - eexists. split; [vm_compute; right; left; reflexivity | reflexivity].
-  - do 2 eexists. split; [simpl; right; right; right; right; left; reflexivity | reflexivity].
-  - vm_compute. reflexivity.
+  split; [|split]; vm_compute; reflexivity.
 Qed.
 
 (* (R4) WhenQueue(tick) of a canceled mutation: the queue passes the tick at
@@ -128,15 +127,14 @@ Lemma whenqueue_canceled_refuted_lemma :
   exists (sc : schema) (calls : list api_call) (t : N),
     let ops := [at_call 0 (OWhenQueue t)] in
     let es := hist_events sc [] [] calls ops in
-    (exists v, In (v, false) (tx_end_views es) /\ cond (OWhenQueue t) v = true) /\
+    existsb (fun vp : view * bool => negb (snd vp) && cond (OWhenQueue t) (fst vp))
+            (tx_end_views es) = true /\
     polls_of ops es = [[false]; [false]].
 Proof.
   exists req_schema, [call KAdd [0]], 2%N.
   cbv zeta.
   remember (hist_events _ _ _ _ _) as es eqn:Hes. vm_compute in Hes. subst es.
-  split.
-  - eexists. split; [vm_compute; left; reflexivity | reflexivity].
-  - vm_compute. reflexivity.
+  split; vm_compute; reflexivity.
 Qed.
 
 (* (R5) a multi-state When with a context is listed once per state under the
@@ -149,15 +147,14 @@ Lemma when1_lost_refuted_lemma :
   exists (sc : schema) (calls : list api_call) (ops : list sched_op),
     let es := hist_events sc [] [] calls ops in
     nth 1 ops (at_call 0 ONop) = at_call 0 (OWhen [0] None) /\
-    (exists v, In (v, true) (tx_end_views es) /\ cond (OWhen [0] None) v = true) /\
+    existsb (fun vp : view * bool => snd vp && cond (OWhen [0] None) (fst vp))
+            (tx_end_views es) = true /\
     nth 1 (last (polls_of ops es) []) true = false.
 Proof.
   exists (flat_schema 3), [call KAdd [2]; call KAdd [0]], w5_ops.
   cbv zeta. split; [reflexivity|].
   remember (hist_events _ _ _ _ _) as es eqn:Hes. vm_compute in Hes. subst es.
-  split.
-  - eexists. split; [vm_compute; right; left; reflexivity | reflexivity].
-  - vm_compute. reflexivity.
+  split; vm_compute; reflexivity.
 Qed.
 
 (* (R6) a state context made between setActiveStates and ProcessStateCtx of
@@ -175,7 +172,7 @@ Proof.
   cbv zeta.
   remember (hist_events _ _ _ _ _) as es eqn:Hes. vm_compute in Hes. subst es.
   split.
-  - do 2 eexists. split; [simpl; left; reflexivity|].
+  - do 2 eexists. split; [in_list|].
     intros v' p H. vm_compute in H.
     repeat (destruct H as [H | H]; [inversion H; subst; reflexivity |]). contradiction.
   - vm_compute. reflexivity.
